@@ -212,6 +212,9 @@ def _make_path_function(jobs, path):
         # Generate a path function based on the schema detected for jobs.
         path_function = _make_schema_based_path_function(jobs=jobs)
 
+        # Check that the schema-based path generates a 1-1 mapping
+        _check_path_function_unique(jobs, path_spec=path, path_function=path_function)
+
     elif path is False:
         # Just use the job id as path.
         def path_function(job):
